@@ -3,6 +3,7 @@ package ik
 import (
 	"fmt"
 	"math"
+	"math/big"
 
 	"verifharness/vk"
 )
@@ -218,14 +219,61 @@ func checkReduction[T Elem](k Kind, op *Op[T], got complex128, xs, ys []float64,
 	}
 	// sumCheck compares got with the exact sum of terms (given as products
 	// p[i]*q[i]) using the bound 2(k+4)u*sum|terms| plus the underflow allowance.
-	sumCheck := func(part string, g float64, p, q []float64, kterms int) *vk.Failure {
+	//
+	// Special values, asserted only where every summation order agrees: a NaN
+	// term (a NaN factor or Inf*0), or infinite terms of both signs, give NaN;
+	// infinite terms of one sign (and finite terms that cannot overflow) give
+	// that infinity, in particular never NaN (key <fn>/inf-gives-nan). With
+	// nonneg (sums of absolute values) a result can never be NaN unless a term is.
+	sumCheck := func(part string, g float64, p, q []float64, kterms int, nonneg bool) *vk.Failure {
 		var d, s vk.DD
+		anyNaN, pos, neg := false, false, false
 		for i := range p {
-			d.AddProd(p[i], q[i])
-			s.AddProd(math.Abs(p[i]), math.Abs(q[i]))
+			t := p[i] * q[i]
+			switch {
+			case math.IsNaN(t):
+				anyNaN = true
+			case math.IsInf(t, 1) && !math.IsInf(p[i], 0) && !math.IsInf(q[i], 0):
+				s.Add(math.MaxFloat64) // finite factors whose product overflows float64: beyond the threshold
+			case math.IsInf(t, 1):
+				pos = true
+			case math.IsInf(t, -1) && !math.IsInf(p[i], 0) && !math.IsInf(q[i], 0):
+				s.Add(math.MaxFloat64)
+			case math.IsInf(t, -1):
+				neg = true
+			default:
+				d.AddProd(p[i], q[i])
+				s.AddProd(math.Abs(p[i]), math.Abs(q[i]))
+			}
 		}
 		S := s.Float()
-		if math.IsInf(S, 0) || math.IsNaN(S) || S > maxv/4 {
+		safe := !(math.IsInf(S, 0) || math.IsNaN(S) || S > maxv/4)
+		switch {
+		case anyNaN || (pos && neg):
+			if !math.IsNaN(g) {
+				return vk.Failf(fn+"/special-values", "%s%s: got %v, but a term is NaN or terms are infinite with both signs: every summation order gives NaN", fn, part, g)
+			}
+			return nil
+		case pos || neg:
+			if !safe && !nonneg {
+				vk.Class("reduction skipped: sum of |terms| beyond the overflow threshold")
+				return nil
+			}
+			want := math.Inf(1)
+			if neg {
+				want = math.Inf(-1)
+			}
+			if math.IsNaN(g) {
+				return vk.Failf(fn+"/inf-gives-nan", "%s%s: got NaN; the terms contain %v (one sign only) and no NaN: the documented loop and every summation order give %v", fn, part, want, want)
+			}
+			if g != want {
+				return vk.Failf(fn+"/special-values", "%s%s: got %v, want %v (infinite terms of one sign, no NaN)", fn, part, g, want)
+			}
+			return nil
+		case !safe:
+			if nonneg && (math.IsNaN(g) || g < 0) {
+				return vk.Failf(fn+"/special-values", "%s%s: got %v for a sum of finite absolute values", fn, part, g)
+			}
 			vk.Class("reduction skipped: sum of |terms| beyond the overflow threshold")
 			return nil
 		}
@@ -247,28 +295,28 @@ func checkReduction[T Elem](k Kind, op *Op[T], got complex128, xs, ys []float64,
 	switch op.Red {
 	case RedSum:
 		if !k.Cplx {
-			return sumCheck("", real(got), xs, ones(len(xs)), n)
+			return sumCheck("", real(got), xs, ones(len(xs)), n, false)
 		}
 		re, im := make([]float64, n), make([]float64, n)
 		for i := 0; i < n; i++ {
 			re[i], im[i] = xs[2*i], xs[2*i+1]
 		}
-		if f := sumCheck(" (real part)", real(got), re, ones(n), n); f != nil {
+		if f := sumCheck(" (real part)", real(got), re, ones(n), n, false); f != nil {
 			return f
 		}
-		return sumCheck(" (imaginary part)", imag(got), im, ones(n), n)
+		return sumCheck(" (imaginary part)", imag(got), im, ones(n), n, false)
 	case RedL1:
 		a := make([]float64, len(xs))
 		for i, v := range xs {
 			a[i] = math.Abs(v)
 		}
-		return sumCheck("", real(got), a, ones(len(a)), n)
+		return sumCheck("", real(got), a, ones(len(a)), n, true)
 	case RedL1Dist:
 		a := make([]float64, len(xs))
 		for i := range xs {
 			a[i] = math.Abs(rnd(ys[i] - xs[i]))
 		}
-		return sumCheck("", real(got), a, ones(len(a)), n)
+		return sumCheck("", real(got), a, ones(len(a)), n, true)
 	case RedLinfDist:
 		// the documented loop, including its treatment of NaN
 		var norm float64
@@ -296,7 +344,7 @@ func checkReduction[T Elem](k Kind, op *Op[T], got complex128, xs, ys []float64,
 		return nil
 	case RedDot, RedDotc:
 		if !k.Cplx {
-			return sumCheck("", real(got), ys, xs, n)
+			return sumCheck("", real(got), ys, xs, n, false)
 		}
 		// y*x = (yr*xr - yi*xi) + i(yr*xi + yi*xr); y*conj(x) = (yr*xr + yi*xi) + i(yi*xr - yr*xi)
 		sg := 1.0
@@ -310,10 +358,10 @@ func checkReduction[T Elem](k Kind, op *Op[T], got complex128, xs, ys []float64,
 			pr, qr = append(pr, yr, -yi), append(qr, xr, xi)
 			pi, qi = append(pi, yr, yi), append(qi, xi, xr)
 		}
-		if f := sumCheck(" (real part)", real(got), pr, qr, 2*n); f != nil {
+		if f := sumCheck(" (real part)", real(got), pr, qr, 2*n, false); f != nil {
 			return f
 		}
-		return sumCheck(" (imaginary part)", imag(got), pi, qi, 2*n)
+		return sumCheck(" (imaginary part)", imag(got), pi, qi, 2*n, false)
 	case RedL2, RedL2Dist:
 		v := xs
 		if op.Red == RedL2Dist {
@@ -404,7 +452,7 @@ var _ = fmt.Sprint
 // special values only the one behaviour common to every association order is
 // asserted: once a NaN has entered the prefix every later element is NaN
 // (<fn>/nan). Prefixes whose sum of absolute values reaches the overflow
-// threshold are not compared.
+// threshold are not compared. Data of the other classes: checkPrefixExtreme.
 func checkPrefix[T Elem](k Kind, op *Op[T], vd *Vec[T], exp []T, xs []float64, cls int) *vk.Failure {
 	fn := op.Name
 	e, g := image(exp), image(vd.All)
@@ -417,6 +465,9 @@ func checkPrefix[T Elem](k Kind, op *Op[T], vd *Vec[T], exp []T, xs []float64, c
 	if k.Cplx {
 		// complex running reductions are pure Go in every build: the sequential loop itself
 		return compareImages(fn, "dst", vd, exp, true)
+	}
+	if cls != ClsFinite {
+		return checkPrefixExtreme(k, op, vd, exp, xs)
 	}
 	got := Lanes(vd.S)
 	u, eta, maxv := k.U(), k.Eta(), k.MaxVal()
@@ -469,6 +520,97 @@ func checkPrefix[T Elem](k Kind, op *Op[T], vd *Vec[T], exp []T, xs []float64, c
 		if math.IsNaN(got[i]) || math.Abs(got[i]-want) > tol {
 			return vk.Failf(fn+"/rounding-bound", "%s: dst[%d] = %v, exact prefix value %v, |diff| %.3g > bound %.3g", fn, i, got[i], want, math.Abs(got[i]-want), tol)
 		}
+	}
+	return nil
+}
+
+// checkPrefixExtreme is the oracle of the running reductions for data with
+// extreme magnitudes (and for the finite head of data with special values).
+// Reference: the exact prefix value (math/big, 200 bits). As long as the
+// documented sequential loop itself is accurate for a prefix (its result is
+// within the rounding bound of the exact value; once it is not, because the
+// true prefix over/underflows, nothing further is compared), the kernel must
+// be within the same bound. A kernel result outside the bound is classified:
+// when an adjacent pair s[j] op s[j+1], j < i, overflows (or, for products,
+// leaves the normal range) the deviation is the known effect of combining
+// pairs before the carried prefix, key <fn>/spurious-overflow-or-underflow;
+// anything else is <fn>/rounding-bound. NaN in the prefix: every later element NaN.
+func checkPrefixExtreme[T Elem](k Kind, op *Op[T], vd *Vec[T], exp []T, xs []float64) *vk.Failure {
+	fn := op.Name
+	got := Lanes(vd.S)
+	seq := Lanes(exp[vd.Lo : vd.Lo+len(vd.S)])
+	u, eta, maxv := k.U(), k.Eta(), k.MaxVal()
+	minNormal := 0x1p-1022
+	if k.W32 {
+		minNormal = 0x1p-126
+	}
+	rnd := func(v float64) float64 {
+		if k.W32 {
+			return float64(float32(v))
+		}
+		return v
+	}
+	exact := new(big.Float).SetPrec(200)
+	if op.Prefix == "prod" {
+		exact.SetInt64(1)
+	}
+	abs := 0.0
+	seenNaN := false
+	pairBad := false // some adjacent pair s[j] op s[j+1], j+1 <= current index, leaves the safe range
+	for i, x := range xs {
+		if math.IsNaN(x) {
+			seenNaN = true
+		}
+		if seenNaN {
+			if !math.IsNaN(got[i]) {
+				return vk.Failf(fn+"/nan", "%s: s[j] is NaN for some j <= %d but dst[%d] = %v", fn, i, i, got[i])
+			}
+			continue
+		}
+		if math.IsInf(x, 0) {
+			return nil // beyond an infinity the association order decides
+		}
+		bx := new(big.Float).SetPrec(200).SetFloat64(x)
+		var tol float64
+		if op.Prefix == "sum" {
+			exact.Add(exact, bx)
+			abs += math.Abs(x) / 1024 // scaled: the sum of absolute values may exceed MaxFloat although every prefix is representable
+			if math.IsInf(abs, 0) {
+				return nil
+			}
+			tol = vk.SumBound(i+1, u, abs)*1024 + float64(2*i+4)*eta
+			if i > 0 && math.IsInf(rnd(xs[i-1]+x), 0) {
+				pairBad = true
+			}
+		} else {
+			exact.Mul(exact, bx)
+			if i > 0 {
+				if pr := rnd(xs[i-1] * x); math.IsInf(pr, 0) || (math.Abs(pr) < minNormal && xs[i-1] != 0 && x != 0) {
+					pairBad = true
+				}
+			}
+		}
+		want, _ := exact.Float64()
+		if op.Prefix == "prod" {
+			if math.IsInf(want, 0) || math.Abs(want) > maxv || math.Abs(want) < minNormal {
+				return nil // the true prefix leaves the normal range (zero included): nothing further is defined
+			}
+			tol = vk.SumBound(i+1, u, math.Abs(want))
+		}
+		within := func(v float64) bool {
+			return !math.IsNaN(v) && !math.IsInf(v, 0) && math.Abs(v-want) <= tol
+		}
+		if !within(seq[i]) {
+			return nil // the documented loop itself is no longer accurate here
+		}
+		if within(got[i]) {
+			continue
+		}
+		if pairBad {
+			return vk.Failf(fn+"/spurious-overflow-or-underflow", "%s: dst[%d] = %v, but the exact prefix value is %v and the documented sequential loop gives %v: an adjacent pair of elements over/underflows when combined before the carried prefix (s[:%d] = %s)",
+				fn, i, got[i], want, seq[i], i+1, clip(xs[:i+1]))
+		}
+		return vk.Failf(fn+"/rounding-bound", "%s: dst[%d] = %v, exact prefix value %v (documented loop: %v), |diff| %.3g > bound %.3g", fn, i, got[i], want, seq[i], math.Abs(got[i]-want), tol)
 	}
 	return nil
 }
